@@ -109,6 +109,48 @@ def resolve_accepted(spec):
     return acc
 
 
+def filter_object(acc, variant):
+    """the same position-set filter as different kinds of callable: a lambda, a functools.partial, a bound method, and
+    callable objects that are FALSY (an include-list that happens to be empty, a wrapper that counts rejections and has
+    counted none): `filter or default` and `if filter:` are not tests for "no filter was given" """
+    import functools
+
+    def plain(t):
+        return (int(t.pos.n), int(t.pos.x), int(t.pos.y)) in acc
+
+    k = variant % 5
+    if k == 0:
+        return lambda t: (int(t.pos.n), int(t.pos.x), int(t.pos.y)) in acc
+    if k == 1:
+        return functools.partial(lambda a, t: (int(t.pos.n), int(t.pos.x), int(t.pos.y)) in a, acc)
+    if k == 2:
+        class Holder:
+            def accept(self, t):
+                return plain(t)
+
+        return Holder().accept
+    if k == 3:
+        class IncludeList(list):  # extra positions to force in: none here, so the object is empty = falsy
+            def __call__(self, t):
+                return plain(t) or tuple(t.pos) in self
+
+        return IncludeList()
+
+    class Recording:
+        def __init__(self):
+            self.rejected = 0
+
+        def __call__(self, t):
+            ok = plain(t)
+            self.rejected += int(not ok and False)
+            return ok
+
+        def __len__(self):
+            return self.rejected  # 0: falsy
+
+    return Recording()
+
+
 def build_pyramid(spec):
     from toasty.pyramid import Pos, Pyramid
 
@@ -119,7 +161,7 @@ def build_pyramid(spec):
         pyr = Pyramid.new_toast(spec["depth"], coordsys=coordsys_of(spec))
     elif k == "filtered":
         acc = {tuple(p) for p in spec["accepted"]}
-        pyr = Pyramid.new_toast_filtered(spec["depth"], lambda t: (int(t.pos.n), int(t.pos.x), int(t.pos.y)) in acc, coordsys=coordsys_of(spec))
+        pyr = Pyramid.new_toast_filtered(spec["depth"], filter_object(acc, len(acc) + spec["depth"]), coordsys=coordsys_of(spec))
     else:
         from toasty.samplers import _latlon_tile_filter
 
